@@ -1582,7 +1582,7 @@ def run_shard(ctx: core.Ctx) -> core.ShardResult:
     plan = families()
     done = core.run_enumeration(ctx, res, qiskit_enumeration(), check)
     res.extra['qiskit_table_enumerated'] = bool(done)
-    res.extra['families'] = len({k for k, _ in plan})
+    res.extra['gate_classes_covered'] = sorted({k for k, _ in plan})
     # heavy (repeated) families first so that they spread over the shards
     order = sorted(
         range(len(plan)),
